@@ -48,7 +48,37 @@ def run(tier, seed, replay=None):
         d = os.path.join(work, name)
         os.makedirs(d)
         feature_gated = (ci % 3 == 1)
-        if feature_gated:
+        chain_gated = feature_gated and (ci % 2 == 0) and prog.gdl().count("pass(") >= 2
+        if chain_gated:
+            # whole passes under if / elseif / else: the elseif pass carries two conditions (not the first, and its own), the
+            # else pass the negations of both - as pass constraints from Silf 3.1, copied into every rule below that
+            text = prog.gdl()
+            npass = text.count("pass(")
+            k = [0]
+
+            def wrapc(m):
+                k[0] += 1
+                if k[0] == 1:
+                    return "if (fz == 1) " + m.group(0)
+                if k[0] == npass and npass >= 3:
+                    return "else " + m.group(0)
+                return "elseif (fy == %d) " % (k[0] % 2) + m.group(0)
+            text = re.sub(r"pass\(\d+\)", wrapc, text)
+            # a rule per pass whose effect is easy to see: the space glyph becomes a glyph that tells which pass ran last
+            kk = [0]
+
+            def visible(m):
+                kk[0] += 1
+                return "cVisIn%d > cVisOut%d;\nendpass;" % (kk[0], kk[0])
+            text = text.replace("endtable;", "".join("cVisIn%d = glyphid(%d); cVisOut%d = glyphid(%d);\n" % (j, 1 if j == 1 else 1 + j, j, 2 + j) for j in range(1, npass + 1)) + "endtable;", 1)
+            text = re.sub(r"endpass;", visible, text)
+            idx = text.rindex("endpass;") + len("endpass;")
+            text = text[:idx] + " endif;" + text[idx:]
+            FEAT2 = FEAT.replace("endtable;", 'fy { id = 1235; name.1033 = string("Y"); default = 0; settings { yoff { value = 0; name.1033 = string("off"); } '
+                                 'yon { value = 1; name.1033 = string("on"); } } } endtable;')
+            text = text.replace("table(sub)", FEAT2 + "table(sub)", 1)
+            prog.raw_gdl = text
+        elif feature_gated:
             # every second pass is wrapped in a pass-level `if` on a feature (pass constraints exist from Silf 3.1; for
             # older requests the compiler moves the test into each rule) - shaping must still agree across all builds
             text = prog.gdl()
@@ -153,8 +183,8 @@ def run(tier, seed, replay=None):
         # (d) shaping identical across builds
         faces = {k: gr2.Face(os.path.join(d, fonts[k][0])) for k in keys}
         if all(f.ok() for f in faces.values()):
-            for ti, t in enumerate(texts_for(prog, trng, 40 if tier == "quick" else 150)):
-                fv = {1234: ti % 2} if feature_gated else None
+            for ti, t in enumerate(([[0x20], [0x20, 0x20], [0x20], [0x20, 0x61]] if chain_gated else []) + texts_for(prog, trng, 40 if tier == "quick" else 150)):
+                fv = ({1234: ti % 2, 1235: (ti // 2) % 2} if chain_gated else {1234: ti % 2}) if feature_gated else None
                 ref = shape_key(faces["default"], t, fv)
                 stats["texts"] += 1
                 for k in keys:
